@@ -222,7 +222,7 @@ impl<'a> Rd<'a> {
     fn boolean(&mut self) -> R<bool> {
         Ok(self.nat()? != 0)
     }
-    fn nat_list(&mut self) -> R<Vec<u32>> {
+    pub fn nat_list(&mut self) -> R<Vec<u32>> {
         let n = self.nat()?;
         (0..n).map(|_| self.nat().map(|x| x as u32)).collect()
     }
